@@ -1,0 +1,8 @@
+//go:build !verif
+
+package recovery
+
+import "time"
+
+func verifAttempt(int)              {}
+func verifDelay(int, time.Duration) {}
